@@ -197,6 +197,7 @@ def _op_mine(ctx, W, st):
     ctx.probe("block_roundtrip")
     exp_id = mw.block_hash(hdr)[::-1].hex()
     ctx.obs("mine", st["id"], n, bid)
+    ctx.sig("block|n%d|w%d" % (n, sum(1 for t in txs if mw.has_witness(t))))
     if out != raw or msg != raw:
         ctx.violate("C14", "block-roundtrip-bytes", {"ntx": n, "len_in": len(raw), "len_out": len(out)})
     if hout != raw[:80] or as_hdr != raw[:80]:
@@ -366,6 +367,7 @@ def _op_send_proof(ctx, W, st):
         err = type(e).__name__
     exp = [i for i, m in zip(blk["ids"], matches) if m]
     ctx.obs("send_proof", st["block"], st["match_mode"], corr, accepted, len(exp))
+    ctx.sig("proof|n%d|m%d|%s|%s" % (total, len(exp), corr, accepted))
     if not corr:
         if not accepted:
             ctx.violate("C14", "honest-proof-rejected", {"ntx": total, "matched": len(exp), "exc": err})
